@@ -28,3 +28,23 @@ package method
 //@   requires v != nil
 //@   modifies v.err
 //@   ensures[reset-forgets-everything] v.err != nil && len(v.err.errs) == 0 && merrIdle(v.err)
+
+// ---------------------------------------------------------------------------------------------
+// C12: building a method filter from its JSON form. "modifier" feeds the two when-true branches, "else" the two
+// when-false branches, each side with its own projection of the parsed subtree; the filter is offered under the
+// message's scope.
+//@ extern func parse.FromJSON
+//@   ensures (result1 == nil) == (result0 != nil)
+//@ extern func json.Unmarshal
+//@   modifies filterJSON.*
+//@ func NewFilter
+//@   serves C12
+//@   ensures[same-matcher-on-both-sides] result != nil && result.Filter != nil && result.Filter.reqcond != nil && result.Filter.rescond != nil &&
+//@        ref(result.Filter.reqcond) == ref(result.Filter.rescond) && as(result.Filter.reqcond, *Matcher).method == meth
+//@ func filterFromJSON
+//@   serves C12
+//@   at call 0 of RequestWhenTrue before assert[then-branch-request-side-from-modifier] self == filter.Filter && arg0 == m.reqmod
+//@   at call 0 of ResponseWhenTrue before assert[then-branch-response-side-from-modifier] self == filter.Filter && arg0 == m.resmod
+//@   at call 0 of RequestWhenFalse before assert[else-branch-request-side-from-else] self == filter.Filter && arg0 == em.reqmod
+//@   at call 0 of ResponseWhenFalse before assert[else-branch-response-side-from-else] self == filter.Filter && arg0 == em.resmod
+//@   at call 0 of NewResult before assert[the-filter-is-offered-under-the-message-scope] arg0 == iface(filter) && arg1 == msg.Scope
